@@ -24,7 +24,7 @@ type call struct {
 	paths []string
 }
 
-func (r *rec) note(op string, p ...string) { r.calls = append(r.calls, call{op, p}) }
+func (r *rec) note(op string, p ...string)         { r.calls = append(r.calls, call{op, p}) }
 func (r *rec) Create(n string) (afero.File, error) { r.note("Create", n); return r.Fs.Create(n) }
 func (r *rec) Mkdir(n string, p os.FileMode) error { r.note("Mkdir", n); return r.Fs.Mkdir(n, p) }
 func (r *rec) MkdirAll(n string, p os.FileMode) error {
@@ -36,12 +36,12 @@ func (r *rec) OpenFile(n string, f int, p os.FileMode) (afero.File, error) {
 	r.note("OpenFile", n)
 	return r.Fs.OpenFile(n, f, p)
 }
-func (r *rec) Remove(n string) error           { r.note("Remove", n); return r.Fs.Remove(n) }
-func (r *rec) RemoveAll(n string) error        { r.note("RemoveAll", n); return r.Fs.RemoveAll(n) }
-func (r *rec) Rename(a, b string) error        { r.note("Rename", a, b); return r.Fs.Rename(a, b) }
-func (r *rec) Stat(n string) (os.FileInfo, error) { r.note("Stat", n); return r.Fs.Stat(n) }
+func (r *rec) Remove(n string) error               { r.note("Remove", n); return r.Fs.Remove(n) }
+func (r *rec) RemoveAll(n string) error            { r.note("RemoveAll", n); return r.Fs.RemoveAll(n) }
+func (r *rec) Rename(a, b string) error            { r.note("Rename", a, b); return r.Fs.Rename(a, b) }
+func (r *rec) Stat(n string) (os.FileInfo, error)  { r.note("Stat", n); return r.Fs.Stat(n) }
 func (r *rec) Chmod(n string, m os.FileMode) error { r.note("Chmod", n); return r.Fs.Chmod(n, m) }
-func (r *rec) Chown(n string, u, g int) error  { r.note("Chown", n); return r.Fs.Chown(n, u, g) }
+func (r *rec) Chown(n string, u, g int) error      { r.note("Chown", n); return r.Fs.Chown(n, u, g) }
 func (r *rec) Chtimes(n string, a, m time.Time) error {
 	r.note("Chtimes", n)
 	return r.Fs.Chtimes(n, a, m)
@@ -169,9 +169,11 @@ func gnames(ss []string) string {
 }
 
 type replay struct {
-	Op   string   `json:"op"`
-	Root string   `json:"root"`
-	Args []string `json:"args"`
+	Op     string   `json:"op"`
+	Root   string   `json:"root"`
+	Args   []string `json:"args"`
+	Cwd    string   `json:"cwd,omitempty"`    // working directory in force when NewChrootFs is called (relative roots)
+	Quoted bool     `json:"quoted,omitempty"` // Root/Args/Cwd are strconv.Quote'd (they hold bytes that are not valid UTF-8)
 }
 
 var roots = []string{"/", "/r", "/r/s", "/r/s/a", "/r/./s", "/r//s/", "/r/../s", "/a"}
@@ -181,9 +183,27 @@ type obs struct {
 	paths   []string
 }
 
-func observe(root, op string, args []string) obs {
+// effRoot: the root in force as one absolute spelling (a relative root is resolved against cwd, as filepath.Abs does)
+func effRoot(cwd, root string) string {
+	if strings.HasPrefix(root, "/") {
+		return root
+	}
+	return cwd + "/" + root
+}
+
+var origWd, _ = os.Getwd()
+
+func observe(cwd, root, op string, args []string) obs {
 	r := &rec{Fs: afero.NewMemMapFs()}
+	if cwd != "" {
+		if err := os.Chdir(cwd); err != nil {
+			panic(err)
+		}
+	}
 	fs := syslutil.NewChrootFs(r, root)
+	if cwd != "" {
+		os.Chdir(origWd)
+	}
 	b := ""
 	if len(args) > 1 {
 		b = args[1]
@@ -201,7 +221,13 @@ func observe(root, op string, args []string) obs {
 }
 
 // judge the PROPERTY on one observation, model-independently
-func judge(c *common.Ctx, root, op string, args []string, o obs) {
+func judge(c *common.Ctx, cwd, root0, op string, args []string, o obs) {
+	judgeWith(c, "", "", mkReplay(op, root0, args, cwd), cwd, root0, op, args, o)
+}
+
+// judgeWith: the same verdict with a message prefix, a key prefix and the replay to attach (histories)
+func judgeWith(c *common.Ctx, msg, keyPrefix string, rp interface{}, cwd, root0, op string, args []string, o obs) {
+	root := effRoot(cwd, root0)
 	cr := cleanStack(splitAbs(root))
 	want := make([][]string, len(args))
 	allInside := true
@@ -211,27 +237,26 @@ func judge(c *common.Ctx, root, op string, args []string, o obs) {
 			allInside = false
 		}
 	}
-	rp := replay{op, root, args}
 	if o.reached {
 		for _, p := range o.paths {
 			if !hasPrefix(cleanStack(splitAbs(p)), cr) {
-				c.Fail("escape:"+op, fmt.Sprintf("%s(%q) under root %q reached the inner filesystem with %q", op, args, root, p), rp)
+				c.Fail(keyPrefix+"escape:"+op, msg+fmt.Sprintf("%s(%q) under root %q reached the inner filesystem with %q", op, args, root, p), rp)
 				return
 			}
 		}
 	}
 	if allInside {
 		if !o.reached {
-			c.Fail("inside-refused:"+op, fmt.Sprintf("%s(%q) under root %q stays inside the root but was refused", op, args, root), rp)
+			c.Fail(keyPrefix+"inside-refused:"+op, msg+fmt.Sprintf("%s(%q) under root %q stays inside the root but was refused", op, args, root), rp)
 			return
 		}
 		if len(o.paths) != len(args) {
-			c.Fail("inside-wrong-file:"+op, fmt.Sprintf("%s(%q) under root %q: inner call got %q", op, args, root, o.paths), rp)
+			c.Fail(keyPrefix+"inside-wrong-file:"+op, msg+fmt.Sprintf("%s(%q) under root %q: inner call got %q", op, args, root, o.paths), rp)
 			return
 		}
 		for i := range args {
 			if "/"+strings.Join(want[i], "/") != o.paths[i] {
-				c.Fail("inside-wrong-file:"+op, fmt.Sprintf("%s(%q) under root %q resolved to %q, canonical spelling is %q", op, args, root, o.paths[i], "/"+strings.Join(want[i], "/")), rp)
+				c.Fail(keyPrefix+"inside-wrong-file:"+op, msg+fmt.Sprintf("%s(%q) under root %q resolved to %q, canonical spelling is %q", op, args, root, o.paths[i], "/"+strings.Join(want[i], "/")), rp)
 				return
 			}
 		}
@@ -269,7 +294,27 @@ func main() {
 	c.Res.Rule = "each case = (operation, root, path arguments spelled over the segment alphabet {\"\", \".\", \"..\", a, b.c, \"d e\", ..x}); exhaustive up to the stated length for the Go oracle, sampled for the in-Coq comparison; distinct = distinct (op, root, args); non-trivial = the spelling contains at least one of \"\", \".\", \"..\" or is absolute"
 	if c.Replay != "" {
 		var irp impReplay
-		if err := common.LoadReplay(c.Replay, &irp); err == nil && irp.Kind != "" {
+		var brp ibReplay
+		if err := common.LoadReplay(c.Replay, &brp); err == nil && brp.Raw {
+			o := ibObserve(c, brp)
+			ibJudge(c, brp, o)
+			c.Count(fmt.Sprint(brp), true)
+			fmt.Printf("replay %+v: model=%v apps=%v inner-opens=%q cache=%q failures=%d\n", brp, o.ok, o.apps, o.opens, o.cached, len(c.Res.Failures))
+			return
+		}
+		var hrp histReplay
+		if err := common.LoadReplay(c.Replay, &hrp); err == nil && hrp.Kind == "history" {
+			hrp = hrp.unquote()
+			o := observeHistory(hrp.Cwd, hrp.Root, hrp.Steps, hrp.Fails)
+			judgeHistory(c, hrp.Cwd, hrp.Root, hrp.Steps, o, hrp.Fails)
+			c.Count(fmt.Sprint(hrp), true)
+			for i, st := range hrp.Steps {
+				fmt.Printf("replay history step %d: %s%q under root %q: reached=%v inner=%q\n", i+1, st.Op, st.Args, hrp.Root, o[i].reached, o[i].paths)
+			}
+			fmt.Printf("failures=%d\n", len(c.Res.Failures))
+			return
+		}
+		if err := common.LoadReplay(c.Replay, &irp); err == nil && (irp.Kind == "import" || irp.Kind == "module") {
 			o := observeImport(irp)
 			judgeImport(c, irp, o)
 			c.Count(fmt.Sprint(irp), true)
@@ -281,8 +326,9 @@ func main() {
 			fmt.Fprintln(os.Stderr, err)
 			os.Exit(3)
 		}
-		o := observe(rp.Root, rp.Op, rp.Args)
-		judge(c, rp.Root, rp.Op, rp.Args, o)
+		rp = rp.unquote()
+		o := observe(rp.Cwd, rp.Root, rp.Op, rp.Args)
+		judge(c, rp.Cwd, rp.Root, rp.Op, rp.Args, o)
 		c.Count(fmt.Sprint(rp), true)
 		fmt.Printf("replay %v: reached=%v paths=%q failures=%d\n", rp, o.reached, o.paths, len(c.Res.Failures))
 		return
@@ -320,11 +366,11 @@ Notation E := Empty. Notation D := Dot. Notation U := DotDot. Definition n (p:po
 			}
 		}
 		term := fmt.Sprintf("(%d%%nat, %s, %s, %s)", opi, gsegs(splitAbs(root)), common.GList(ga), common.GOptList(o.reached, gp))
-		cs.Add(term, replay{ops[opi], root, args})
+		cs.Add(term, mkReplay(ops[opi], root, args, ""))
 	}
 	one := func(opi int, root string, args []string, toCoq bool) {
-		o := observe(root, ops[opi], args)
-		judge(c, root, ops[opi], args, o)
+		o := observe("", root, ops[opi], args)
+		judge(c, "", root, ops[opi], args, o)
 		c.Count(ops[opi]+"|"+root+"|"+strings.Join(args, "|"), nontrivial(args))
 		if o.reached {
 			c.Hist("reached")
@@ -389,6 +435,12 @@ Notation E := Empty. Notation D := Dot. Notation U := DotDot. Definition n (p:po
 		one(opi, root, args, true)
 	}
 	cs.Close()
+	// 2b. raw byte strings against the byte-level model (Chroot/Bytes.v), absolute and relative roots
+	runBytes(c)
+	// 2c. histories of operations on one instance
+	runHistories(c)
 	// 3. end to end: import statements and the module argument through loader.LoadSyslModule
 	runImports(c)
+	// 4. the same on raw strings: "@version" suffixes, dotted directory names, module arguments as spelled
+	runImportBytes(c)
 }
